@@ -26,6 +26,7 @@ func vAssume(c bool)
 func vAssert(c bool, msg string)
 func vReach(tag string)
 func vYield()
+func vQuiesce()
 func vObserve(tag string, v interface{})
 func vSymbolic() bool
 func vThorough() bool
@@ -46,6 +47,7 @@ func preludeNative(pkg string, entries []string) string {
 	"runtime"
 	"strconv"
 	"sync"
+	"time"
 )
 
 type verifAssumeFalse struct{}
@@ -144,6 +146,12 @@ func vAssert(c bool, msg string) {
 }
 func vReach(tag string) {}
 func vYield()           { runtime.Gosched() }
+func vQuiesce() {
+	for i := 0; i < 20; i++ {
+		runtime.Gosched()
+		time.Sleep(2 * time.Millisecond)
+	}
+}
 func vSymbolic() bool   { return false }
 func vThorough() bool   { return verifThorough }
 func vMapOrder(string)  {}
